@@ -107,7 +107,7 @@ impl Check for C14 {
     fn cases(&self, tier: Tier) -> u64 {
         match tier {
             Tier::Quick => 1200,
-            Tier::Thorough => 9000,
+            Tier::Thorough => 24000,
         }
     }
     fn gen(&self, seed: u64, i: u64, _tier: Tier) -> Value {
@@ -126,6 +126,13 @@ impl Check for C14 {
         let mut model = gen_model(&mut mr, &gp);
         let mut flags = vec![];
         super::c13::add_specials(&mut mr, &mut model, &mut flags, true);
+        // "for projects of any number of files": a ninth of the worlds have 17..70 of them
+        if (i / setups.len() as u64) % 9 == 4 {
+            let mut wr = r.split("widen");
+            let target = *wr.pick(&[17usize, 18, 33, 64, 65, 70]);
+            crate::model::widen(&mut model, &mut wr, target);
+            flags.push(format!("files={}", target));
+        }
         // a quarter of the worlds were something else before: more events, one more command
         let prelude = if (i / 8) % 4 == 1 {
             let before = model.clone();
@@ -691,7 +698,7 @@ impl Check for C14 {
     }
 
     fn rule(&self) -> String {
-        "case = (generated project of 1..6 source files, configuration, entry point/cwd/config-source, per-process hash keys + readdir permutation + clock script + write chunking). idem cases: one generating run then 2..5 non-forced repeat runs, each a new simulated process; force cases: cache state x force source matrix. distinct_nontrivial counts distinct (files-with-commands, #type-mappings, entry) classes whose repeat run took a cache decision over >=2 command files or >=2 mappings, plus distinct (cache state, force flag, force config, entry) combinations exercised.".into()
+        "case = (generated project of 1..6 source files, configuration, entry point/cwd/config-source, per-process hash keys + readdir permutation + clock script + write chunking; a seventh of the histories with injected short reads / EINTR and one source-file read error). idem cases: one generating run then 2..5 non-forced repeat runs, each a new simulated process; force cases: cache state (absent, matching, mismatching, torn, bit flip, other version, garbage, unreadable, symlink to a directory, symlink loop) x force source matrix. distinct_nontrivial counts distinct (files-with-commands, #type-mappings, entry) classes whose repeat run took a cache decision over >=2 command files or >=2 mappings, plus distinct (cache state, force flag, force config, entry) combinations exercised.".into()
     }
     fn assumptions(&self) -> Vec<String> {
         vec![
